@@ -822,6 +822,13 @@ def spec_c02(c):
 
 def known_c02(c, w):
     if c["stream"] == "solve" and has(c, SOLVE, "tc") and "hard-feasible assignment" in w and has(c, SOLVE, "accepted", "result"):
+        # defect D2 is that the tree never cancels a course in order to FREE ITS INSTRUCTOR: a result below the optimum over the cancellation
+        # sets that free no instructor with own choices is not explained by it (27 000 runs in class TC on the unchanged tree: 551 below
+        # the full optimum, none below this one) and is reported
+        nf = c["meta"].get("brute_force_nofree")
+        rs = (c["meta"].get("result") or {}).get("score")
+        if isinstance(nf, dict) and (rs is None or rs < nf["score"]):
+            return None
         return known_tc("C02")
     return None
 
